@@ -94,8 +94,16 @@ def generate(R, tier):
                 else:
                     row = [R.randrange(nt) for _p in range(npar)]
                 xc.append(row)
-            steps.append({"op": "mate", "xconfig": xc, "nmating": _counts(R, ncross), "nprogeny": _counts(R, ncross),
-                          "nself": R.choice([0, 0, 0, 1, 2, 3]), "npscalar": R.random() < 0.2, "xdtype": R.choice(["int64", "int64", "int32", "uint8"])})
+            st = {"op": "mate", "xconfig": xc, "nmating": _counts(R, ncross), "nprogeny": _counts(R, ncross),
+                  "nself": R.choice([0, 0, 0, 1, 2, 3]), "npscalar": R.random() < 0.2, "xdtype": R.choice(["int64", "int64", "int32", "uint8", "int8", "int16"]),
+                  # some parents named from the end of the taxa axis (index i - ntaxa), as NumPy indexing allows
+                  "negidx": R.random() < 0.12}
+            if R.random() < 0.03 and ncross:
+                # many matings per cross: more than 127 hybrids in total
+                st["nmating"] = [R.randint(30, 70) for _ in range(ncross)] if R.random() < 0.5 else R.randint(130 // ncross + 1, 130 // ncross + 40)
+                st["nprogeny"] = 1
+                st["nself"] = R.choice([0, 0, 1])
+            steps.append(st)
     sc["steps"] = steps
     return sc
 
@@ -218,7 +226,15 @@ def _mate_step(sc, st, ix, pg, mp, pname, state, V, log, probes):
     cls, npar, isdh = PROT[pname]
     xo = pg.vrnt_xoprob
     ncross = len(st["xconfig"])
-    xconfig = numpy.array(st["xconfig"], dtype=int).reshape(ncross, npar).astype(st.get("xdtype", "int64"))
+    xconfig = numpy.array(st["xconfig"], dtype=int).reshape(ncross, npar)
+    if st.get("negidx") and not numpy.dtype(st.get("xdtype", "int64")).kind == "u" and xconfig.size:
+        # the same individuals, every other entry counted from the end
+        neg = xconfig.copy()
+        neg.flat[::2] = neg.flat[::2] - pg.ntaxa
+        xconfig_for_call = neg.astype(st.get("xdtype", "int64"))
+    else:
+        xconfig_for_call = xconfig.astype(st.get("xdtype", "int64"))
+    xconfig = xconfig.astype(st.get("xdtype", "int64"))
     nm = st["nmating"] if isinstance(st["nmating"], int) else numpy.array(st["nmating"], dtype=int)
     npg = st["nprogeny"] if isinstance(st["nprogeny"], int) else numpy.array(st["nprogeny"], dtype=int)
     if st.get("npscalar"):
@@ -232,9 +248,9 @@ def _mate_step(sc, st, ix, pg, mp, pname, state, V, log, probes):
     C = cls.__name__ + ".mate"
     before = sdig(pg)
     pc0, fc0 = state["pc"], state["fc"]
-    args0 = [numpy.array(a, copy=True) for a in (xconfig, nm, npg)]
+    args0 = [numpy.array(a, copy=True) for a in (xconfig_for_call, nm, npg)]
     try:
-        prog = mp.mate(pg, xconfig, nm, npg, nself=st["nself"])
+        prog = mp.mate(pg, xconfig_for_call, nm, npg, nself=st["nself"])
     except Exception as e:
         cond = "raises:%s@%s" % (type(e).__name__, "empty" if total == 0 else "nonempty")
         V.append(viol("mate-completes", C, cond, "step %d: %s: %s (ncross=%d nmating=%s nprogeny=%s nself=%d)" %
@@ -245,7 +261,7 @@ def _mate_step(sc, st, ix, pg, mp, pname, state, V, log, probes):
         V.append(viol("parents-unaltered", C, "pgmat", "step %d: parental genotype matrix changed by mate()" % ix, step=ix))
         return False
     # the caller's design arrays are what a later call with the same objects would be read from
-    for nm_, a0, a1 in zip(("xconfig", "nmating", "nprogeny"), args0, (xconfig, nm, npg)):
+    for nm_, a0, a1 in zip(("xconfig", "nmating", "nprogeny"), args0, (xconfig_for_call, nm, npg)):
         if not numpy.array_equal(a0, numpy.asarray(a1)):
             V.append(viol("design-follows-arguments", C, "argument-modified:" + nm_,
                           "step %d: mate() changed the caller's %s from %s to %s: the next call with the same object no longer follows the design" %
